@@ -249,6 +249,8 @@ func fmtInt(w io.Writer, v interface{}, base, padLen int) {
 	}
 
 	switch v.(type) {
+	case uint:
+		uval = uint64(v.(uint))
 	case uint8:
 		uval = uint64(v.(uint8))
 	case uint16:
